@@ -181,7 +181,11 @@ def main() -> int:
     else:
         paths = corpus.decks() if thorough else sorted(set(corpus.subset(6, E.seed()) + corpus.opc_key_decks()))
         npairs = 60 if thorough else 12
-    jobs = E.pmap(_deck_job, [(p, ("path", "stream", "dir", "dirlink"), npairs, E.seed(), work) for p in paths], procs=16, chunk=1)
+    jargs = [(p, ("path", "stream", "dir", "dirlink"), npairs, E.seed(), work) for p in paths]
+    BATCH = 12 if (thorough and not replay and not selftest) else len(jargs)
+    # the thorough tier works through the corpus in batches of decks (all decks' traces at once did not fit the memory of this sandbox):
+    # a batch is replayed, validated and then slimmed to the traces a rejection refers to
+    jobs = E.pmap(_deck_job, jargs[:BATCH], procs=16, chunk=1)
     if replay:
         for j in jobs:
             j["traces"] = [t for t in j["traces"] if t["id"] == rp["trace_id"]] or j["traces"][:1]
@@ -196,15 +200,26 @@ def main() -> int:
         if not ok:
             raise E.MachineryError("selftest failed")
     c_bad, c_tot = [], {}
-    with cf.ThreadPoolExecutor(10) as ex:
-        futs = [ex.submit(validate_deck, i, j, work) for i, j in enumerate(jobs)]
-        for (i, j), fu in zip(enumerate(jobs), futs):
-            b, s, _ = fu.result()
-            for v in b:
-                v["_job"] = i
-            c_bad += b
-            for k, x in s.items():
-                c_tot[k] = c_tot.get(k, 0) + x
+    done, batch, b0 = [], jobs, 0
+    while batch:
+        with cf.ThreadPoolExecutor(10) as ex:
+            futs = [ex.submit(validate_deck, len(done) + i, j, work) for i, j in enumerate(batch)]
+            for (i, j), fu in zip(enumerate(batch), futs):
+                b, s, _ = fu.result()
+                for v in b:
+                    v["_job"] = len(done) + i
+                c_bad += b
+                for k, x in s.items():
+                    c_tot[k] = c_tot.get(k, 0) + x
+                if BATCH < len(jargs):          # keep what the report needs: the rejected traces in full, the others by id and outcome
+                    keep = {v["id"] for v in b}
+                    j["traces"] = [t if (t["id"] in keep or (not done and i == 0 and n_ < 4)) else
+                                   {"id": t["id"], "pk1": {"err": t["pk1"]["err"], "parts": [0] * len(t["pk1"]["parts"])}}
+                                   for n_, t in enumerate(j["traces"])]
+        done += batch
+        b0 += BATCH
+        batch = E.pmap(_deck_job, jargs[b0:b0 + BATCH], procs=16, chunk=1) if b0 < len(jargs) else []
+    jobs = done
     byid = {t["id"]: t for t in sk_traces}
     for v in sk_bad:
         t = byid[v["id"]]
